@@ -272,6 +272,14 @@ func keysOf(m map[int64]string) []int64 {
 func main() {
 	flag.Parse()
 	par.ServeIfWorker(map[string]par.Handler{"b": xrun.Handler(runB)})
+	if v, ok := ev.ReplayRequested(); ok {
+		if strings.HasPrefix(v.Part, "b-") {
+			xrun.Replay(v, runB)
+		} else {
+			fmt.Printf("  the replay artefact names the failing content directly: %v\n", v.Replay)
+		}
+		return
+	}
 	r := ev.Start("C06")
 	defer r.RecoverMain()
 	defer world.Cleanup()
